@@ -49,7 +49,9 @@ def _balanced(labels, n, k, lim):
 def _quota(a):
     n, k = z(a.X.shape[0]), z(a.centers.shape[0])
     lim, lo = z(a.limit), z(a.leftover)
-    return {"quota_is_floor_of_n_over_k": z3.And(k >= 1, lim * k <= n, n < (lim + 1) * k),
+    from pyvc.values import is_int_like
+    return {"quota_and_leftover_are_integers": z3.BoolVal(is_int_like(a.limit) and is_int_like(a.leftover)),
+            "quota_is_floor_of_n_over_k": z3.And(k >= 1, lim * k <= n, n < (lim + 1) * k),
             "leftover_is_n_minus_k_times_quota": z3.And(lo == n - lim * k, lo >= 0, lo < k),
             "one_counter_and_flag_per_cluster": z3.And(z(a.counters.shape[0]) == k, z(a.leftclose.shape[0]) == k),
             "one_label_and_distance_per_point": z3.And(z(a.labels.shape[0]) == n, z(a.distances_close.shape[0]) == n),
